@@ -502,7 +502,9 @@ func c08MapOrder(c *Ctx) {
 		}
 		c.R.Add(rule, cons, c.P.InstrPos(ml.In), Violation, "the iteration order of a Go map reaches a result: "+strings.Join(sinks, "; "))
 	}
-	c.R.Floor(rule, 2)
+	// the pinned tree has two map loops (the de-duplication of field names, the conversion of a map argument); the
+	// first can legitimately go (de-duplication by sorting), the second is what the evaluator needs
+	c.R.Floor(rule, 1)
 }
 
 // c08GlobalEscape: a package-level map, slice or pointer must not be installed in an object the API hands out
